@@ -219,6 +219,9 @@ opened("F07f", "C07", "PythonRegex replaces shortcuts blindly: an escaped backsl
 opened("F07g", "C07", "PythonRegex negated sets ignore escaped ] - ^ and shortcuts when complementing ([^\\d] accepts 5, [^\\]] accepts ])",
        pat("[^\\d]|[^\\]]x", ["5", "a", "]x", "ax", ""], ["negset", "set_shortcut", "set_escape", "alt"]),
        None, None, "negset_escape", ["negset_escape"])
+opened("F07h", "C07", "PythonRegex reads a '-' directly after the ^ of a negated set as a range operator starting at ^ ([^-a] accepts '-', [^--0] accepts '.')",
+       pat("[^-a]|[^--0]x", ["-", "_", "b", ".x", "ax", ""], ["negset", "set_range", "alt"]),
+       None, None, "negset_leading_dash", ["negset_leading_dash"])
 # ------------------------------------------------------------------ C19
 opened("F19d", "C19", "the grammar returned by IndexedGrammar.intersection has end rules whose terminal is a list: intersecting it again (or asking its terminals) raises TypeError (unhashable type: 'list')",
        {"family": "indexed_regex",
